@@ -1156,6 +1156,8 @@ func (env *SpecEnv) evalCall(e ECall) SV {
 		return SV{VInt{c.Ite(env.evalBool(e.Args[0]), c.Int(1), c.Int(0))}, nil}
 	case "sat":
 		return SV{VInt{x.sat(env.evalInt(e.Args[0]), env.evalInt(e.Args[1]))}, nil}
+	case "lastIndex":
+		return SV{VInt{c.Apply(c.Fun("strLastIndex", []Sort{SInt, SInt}, SInt), env.evalInt(e.Args[0]), env.evalInt(e.Args[1]))}, tInt}
 	case "sameElems":
 		// sameElems(a, b): equal length and pointwise equal contents
 		a, b := arg(0), arg(1)
